@@ -35,7 +35,7 @@ func extraCtx(pk []byte, nIn, nOut, idx int) *spendCtx {
 }
 
 func expectEngine(c *spendCtx, taproot bool, flags txscript.ScriptFlags, want bool, what string) string {
-	v, complaint := runEngine(c, taproot, flags)
+	v, complaint := runEngine(c, taproot, flags, txscript.NewSigCache(100))
 	if complaint != "" {
 		return what + ": " + complaint
 	}
